@@ -175,6 +175,8 @@ pub struct BParams {
     pub fine: bool,
     /// weight (out of 500) of the long series (365 ... 8 760 steps); 15 = 3 %
     pub long_w: u32,
+    /// weight (out of 100) of the buildings whose steps differ by orders of magnitude; 4 = 4 %
+    pub mag_w: u32,
 }
 
 impl BParams {
@@ -196,6 +198,7 @@ impl BParams {
             aux_non_epb: false,
             fine: true,
             long_w: 15,
+            mag_w: 4,
         }
     }
 }
@@ -347,7 +350,9 @@ pub struct BuildingG {
     pub rep: usize,
     /// per-step orders of magnitude: every value of step t is multiplied by 10^e_t (the same factor for all lines,
     /// so that the relations inside a step - production equal to the use, and so on - survive): 1 = the first
-    /// step is 10^5..10^7 times the others, 2 = the last one, 3 = exponents vary from step to step
+    /// step is 10^5..10^7 times the others, 2 = the last one, 3 = exponents vary from step to step, 4 = the first
+    /// step times 10^7 and every value of the other steps reduced to its part below 1 kWh (one dominant step: what
+    /// happens at the small steps is far below the rounding of the annual sums)
     pub mag: u8,
 }
 
@@ -674,7 +679,7 @@ pub fn building_g(p: &BParams) -> BoxedStrategy<BuildingG> {
                 // many systems: about one building in 70
                 if p.max_steps >= 12 { prop_oneof![207 => Just(1usize), 1 => Just(20usize), 1 => Just(70usize), 1 => Just(300usize)].boxed() } else { Just(1usize).boxed() },
                 // steps of very different magnitude inside one building: about one building in 25
-                if p.max_steps >= 12 && p.huge_kwh > 0 { prop_oneof![96 => Just(0u8), 2 => Just(1u8), 1 => Just(2u8), 1 => Just(3u8)].boxed() } else { Just(0u8).boxed() },
+                if p.max_steps >= 12 && p.huge_kwh > 0 { prop_oneof![100 - p.mag_w => Just(0u8), p.mag_w => prop_oneof![2 => Just(1u8), 1 => Just(2u8), 1 => Just(3u8), 2 => Just(4u8)]].boxed() } else { Just(0u8).boxed() },
             )
                 .prop_flat_map(move |(keep, regime, quiet_elec, id_off, needs, interleave, cogen_fuel, long, rep, mag)| {
                     let no_elec = regime.is_some() && quiet_elec;
@@ -991,7 +996,17 @@ pub fn resolve(g: &BuildingG) -> Building {
     if g.mag > 0 && n >= 2 {
         let big = 5 + (g.id_off as u32 % 3);
         for t in 0..n {
+            if g.mag == 4 && t > 0 {
+                for l in lines.iter_mut() {
+                    let v = l.vals[t];
+                    let frac = v - v.trunc();
+                    let cents = (frac.abs() * 100.0).round() as i64;
+                    l.vals[t] = cents_f32(if v < 0.0 { -cents } else { cents });
+                }
+                continue;
+            }
             let want = match g.mag {
+                4 => 7,
                 1 => if t == 0 { big } else { 0 },
                 2 => if t == n - 1 { big } else { 0 },
                 _ => (g.id_off as u32 + 3 * t as u32) % 8,
